@@ -191,7 +191,8 @@ theorem c11_glue_holds (cfg : Cfg) (t0 : Nat) (gops : List GOp) :
   simpa [gHolds] using this
 
 /-- The response of a transaction is processed with exactly the policies its own request was stamped
-    with (`k`), whatever reloads/reverts and other attempts of the same sequence lie in between and
+    with (`k`; the stamp does not distinguish the diagnosis-free variant of the same policies, nor do
+    the lenses), whatever reloads/reverts and other attempts of the same sequence lie in between and
     whatever sequence id it carries: the lens answers as the retry remedy of policies `k` would. -/
 theorem glue_response_uses_request_version (cfg : Cfg) (t0 : Nat) (gops : List GOp)
     (pre mid post : List GEv) (id seq seq' status k : Nat) (out : Option Nat)
@@ -208,11 +209,13 @@ theorem glue_response_uses_request_version (cfg : Cfg) (t0 : Nat) (gops : List G
   have e1 : gEventOk cfg.d0 (.req id seq (some k)) pre.reverse = true :=
     gHoldsRev_head _ _ _ (gHoldsRev_append_right _ (.resp id seq' status out :: mid.reverse) _ h2)
   simp only [gEventOk, beq_iff_eq, Option.some.injEq] at e1
-  have hp : gPinned cfg.d0 (mid.reverse ++ .req id seq (some k) :: pre.reverse) id = some k := by
+  have hp : gPinned cfg.d0 (mid.reverse ++ .req id seq (some k) :: pre.reverse) id =
+      some (gLabel cfg.d0 pre.reverse id) := by
     apply gPinned_append_some
-    rw [gPinned_self _ _ _ _ (by simp [mentions]), e1]
+    rw [gPinned_self _ _ _ _ (by simp [mentions])]
   simp only [gEventOk, gLabel, hp, beq_iff_eq] at e2
-  exact e2
+  rw [e2, e1, retryLens_stamp]
+  rfl
 
 /-- In particular: a response whose status is not the retry status of ITS OWN request's policies is
     never answered with a retry header - even when the policies in force by then would retry it. -/
@@ -224,12 +227,37 @@ theorem glue_no_retry_under_other_policies (cfg : Cfg) (t0 : Nat) (gops : List G
   rw [glue_response_uses_request_version cfg t0 gops pre mid post id seq seq' status k out hsplit]
   simp [retryLens, hst]
 
+/-- The diagnosis leg: whenever the diagnosis worker gets to a finished transaction - after any
+    backlog, reloads, reverts and other transactions (also other attempts of the same sequence) - the
+    record it exports was produced with the policies that transaction's own request was stamped with. -/
+theorem glue_diagnosis_uses_request_version (cfg : Cfg) (t0 : Nat) (gops : List GOp)
+    (pre mid post : List GEv) (id seq k : Nat) (r : Option Nat)
+    (hsplit : grun cfg (ginit cfg t0) gops =
+      pre ++ .req id seq (some k) :: (mid ++ .diag id r :: post)) :
+    r = some (diagLens k) := by
+  have h := c11_glue_holds cfg t0 gops
+  rw [gHolds, hsplit] at h
+  simp only [List.reverse_append, List.reverse_cons, List.append_assoc, List.singleton_append] at h
+  have h2 := gHoldsRev_append_right _ post.reverse _ h
+  have e2 : gEventOk cfg.d0 (.diag id r) (mid.reverse ++ .req id seq (some k) :: pre.reverse) = true :=
+    gHoldsRev_head _ _ _ h2
+  have e1 : gEventOk cfg.d0 (.req id seq (some k)) pre.reverse = true :=
+    gHoldsRev_head _ _ _ (gHoldsRev_append_right _ (.diag id r :: mid.reverse) _ h2)
+  simp only [gEventOk, beq_iff_eq, Option.some.injEq] at e1
+  have hp : gPinned cfg.d0 (mid.reverse ++ .req id seq (some k) :: pre.reverse) id =
+      some (gLabel cfg.d0 pre.reverse id) := by
+    apply gPinned_append_some
+    rw [gPinned_self _ _ _ _ (by simp [mentions])]
+  simp only [gEventOk, gLabel, hp, beq_iff_eq] at e2
+  rw [e2, e1, diagLens_stamp]
+  rfl
+
 /-- Non-vacuity: a retried sequence with reloads between request and response and between attempts. -/
 example :
     grun ⟨30, 30, 0⟩ (ginit ⟨30, 30, 0⟩ 0)
-      [.req 1 1, .reload 1 true, .resp 1 1 500, .req 2 1, .reload 2 true, .resp 2 1 501, .resp 2 1 502]
+      [.req 1 1, .reload 1 true, .resp 1 1 500, .req 2 1, .reload 2 true, .resp 2 1 501, .resp 2 1 502, .diag]
     = [.req 1 1 (some 0), .reload 1, .resp 1 1 500 (some 10), .req 2 1 (some 1), .reload 2,
-       .resp 2 1 501 (some 10), .resp 2 1 502 none] := by
+       .resp 2 1 501 (some 10), .resp 2 1 502 none, .diag 1 (some 0), .diag 2 (some 1), .diag 2 (some 1)] := by
   decide
 
 /-- The glue Spec rejects the history produced when the response path looks the policies up by the
@@ -237,6 +265,13 @@ example :
 example :
     gHolds ⟨30, 30, 0⟩ [.req 1 1 (some 0), .reload 1, .resp 1 1 500 (some 10), .req 2 1 (some 1),
       .resp 2 1 501 none] = false := by
+  decide
+
+/-- ... and the history produced when the diagnosis worker resolves the policies under the sequence id
+    or reuses the policies of another queued task (attempt 2 diagnosed with attempt 1's policies). -/
+example :
+    gHolds ⟨30, 30, 0⟩ [.req 1 1 (some 0), .reload 1, .req 2 1 (some 1), .resp 1 1 200 none,
+      .resp 2 1 200 none, .diag 1 (some 0), .diag 2 (some 0)] = false := by
   decide
 
 end LunarVerif.C11
